@@ -26,7 +26,7 @@ func registerC10() {
 			"counting reader whose backing store is frame || 64 poison bytes || another valid file, under 14 chunkers (1 byte, odd sizes, 4095/4096/4097/5000, PRNG sizes, " +
 			"greedy readers that always fill the buffer, final chunk with io.EOF, occasional (0,nil), yields); for each of the six entry points: bytes delivered <= frame " +
 			"length, == header+data+2 after a successful Decode/CheckIntegrity, result equal to the whole-buffer result; the same frames also through bufio readers (16 and 4096 bytes), bytes.Buffer, strings.Reader behind io.LimitReader, io.MultiReader a reader offering ReadByte/UnreadByte/Seek/ReadAt/WriteTo/Len with short reads, and *os.File (a regular file on disk, and a pipe); family huge-frames: frames of 6, 9 and 17 MiB followed by poison bytes and another file, same consumption rules; family chains: concatenations of 1-5 files in PRNG " +
-			"order: DecodeChained returns one File per input equal to the solo decode, DecodeHeader / DecodeHeaderAndFileID report Decode's header and file_id. A case is one " +
+			"order: DecodeChained returns one File per input equal to the solo decode, DecodeHeader / DecodeHeaderAndFileID report Decode's header and file_id. each chain is also decoded from a seekable reader (bytes.Reader, strings.Reader, io.SectionReader, *os.File) that holds other bytes in front and is handed over positioned at the start of one of the members. A case is one " +
 			"(file, chunker) pair or one chain; family announced-sizes: a valid header (12 or 14 bytes, header CRC right or zero) announcing a data size near 2^32, 2^31, 2^24, 2^16 or a PRNG value, followed by far fewer bytes than announced (nothing, two bytes, a whole valid record area with its CRC, the 14-byte header's own checksum continued to zero): a call that returns success must have consumed header+announced+2 bytes, which the store does not hold, so every call must fail, and none may panic; non-trivial: the call succeeded and consumption was measured; distinct by (input digest, chunker)",
 		Assume:        []string{"record.distance of records whose compressed_speed_distance expands is excluded from solo-vs-chained comparison (known finding F5, decided in C18)"},
 		MinNontrivial: 300,
@@ -579,6 +579,81 @@ func c10Chain(c *lib.Ctx, idx uint64) {
 		if diffs := lib.CompareContent(lib.FileContent(solo), lib.FileContent(files[i]), lib.CompareOpts{Header: true, Unknown: true, Skip: distanceSkip(solo)}); len(diffs) > 0 {
 			c.Violation(chain, "file %d of a chain of %d decodes differently than alone: %s", i+1, k, lib.DiffsString(diffs, 3))
 			return
+		}
+	}
+	// The same chain behind something else in one seekable source (an envelope of other bytes,
+	// an earlier member already consumed by a Decode call): the reader is handed over positioned
+	// at the start of member m. A call starts where the reader stands; nothing in front of that
+	// position is its business. Readers: bytes.Reader, strings.Reader, io.SectionReader, *os.File.
+	{
+		m := rng.Intn(k)
+		env := rng.Bytes(1 + rng.Intn(300))
+		if rng.Chance(1, 2) {
+			env = append([]byte{}, parts[rng.Intn(k)]...) // a whole valid file in front
+		}
+		off := len(env)
+		for i := 0; i < m; i++ {
+			off += len(parts[i])
+		}
+		whole := append(append([]byte{}, env...), chain...)
+		kind := int(idx) % 4
+		var rd io.ReadSeeker
+		var cleanup func()
+		name := ""
+		switch kind {
+		case 0:
+			rd, name = bytes.NewReader(whole), "bytes.Reader"
+		case 1:
+			rd, name = strings.NewReader(string(whole)), "strings.Reader"
+		case 2:
+			rd, name = io.NewSectionReader(bytes.NewReader(whole), 0, int64(len(whole))), "io.SectionReader"
+		default:
+			name = "*os.File"
+			dir := filepath.Join(lib.OutDir(), "work", "C10-files")
+			os.MkdirAll(dir, 0o755)
+			pth := filepath.Join(dir, fmt.Sprintf("chain-%d-%d.fit", os.Getpid(), idx))
+			if os.WriteFile(pth, whole, 0o644) == nil {
+				if fh, e := os.Open(pth); e == nil {
+					rd = fh
+					cleanup = func() { fh.Close(); os.Remove(pth) }
+				} else {
+					os.Remove(pth)
+				}
+			}
+		}
+		if rd != nil {
+			if idx%8 < 4 {
+				rd.Seek(int64(off), io.SeekStart)
+			} else {
+				io.CopyN(io.Discard, rd, int64(off)) // positioned by reading, as after earlier calls
+			}
+			var pf []*fit.File
+			var perr error
+			op := lib.Guard(func() { pf, perr = fit.DecodeChained(rd, opts...) })
+			c.Eval()
+			end, _ := rd.Seek(0, io.SeekCurrent)
+			if cleanup != nil {
+				cleanup()
+			}
+			if op.Panicked || op.Hang {
+				c.Violation(whole, "DecodeChained on a %s positioned at offset %d (member %d of %d) panicked/hung: %s", name, off, m+1, k, op.Panic)
+				return
+			}
+			if perr != nil || len(pf) != k-m {
+				c.Violation(whole, "DecodeChained on a %s positioned at offset %d, the start of member %d of %d valid files: %d files, error %v (want %d files, no error)", name, off, m+1, k, len(pf), perr, k-m)
+				return
+			}
+			if end != int64(len(whole)) {
+				c.Violation(whole, "DecodeChained on a %s positioned at offset %d left the reader at offset %d of %d", name, off, end, len(whole))
+				return
+			}
+			for i := range pf {
+				if diffs := lib.CompareContent(lib.FileContent(files[m+i]), lib.FileContent(pf[i]), lib.CompareOpts{Header: true, Unknown: true, Skip: distanceSkip(pf[i])}); len(diffs) > 0 {
+					c.Violation(whole, "member %d decodes differently when the %s was handed over positioned at it: %s", m+i+1, name, lib.DiffsString(diffs, 3))
+					return
+				}
+			}
+			c.Count("chains_from_a_positioned_"+name, 1)
 		}
 	}
 	c.Count(fmt.Sprintf("chain_len_%02d", k), 1)
